@@ -194,9 +194,10 @@ def enc_to_vals_table(f, rule, lowtab):
 
         def extra(folder, c, cc):
             # call of the `low_ascii_write` closure parameter
-            if cc.endswith("Fn::call") or cc.endswith("FnMut::call_mut") or cc.endswith("FnOnce::call_once"):
-                tup = T.strip(c["args"][1])
-                v = folder.fold(tup["fields"][1])
+            indirect = not cc and isinstance(c.get("fun"), dict) and T.strip(c["fun"]).get("k") in ("Var", "Upvar") and T.strip(c["fun"]).get("name") == fparam
+            if indirect or cc.endswith("Fn::call") or cc.endswith("FnMut::call_mut") or cc.endswith("FnOnce::call_once"):
+                # (the parameter as a plain function pointer is called directly with (buf, ch))
+                v = folder.fold(c["args"][1]) if indirect else folder.fold(T.strip(c["args"][1])["fields"][1])
                 r = lowtab.get(v)
                 if not isinstance(r, list):
                     raise T.Undecidable("low table at %r" % (v,))
